@@ -5,6 +5,7 @@ import (
 	"fmt"
 	"os"
 	"path/filepath"
+	"sync"
 	"syscall"
 
 	"github.com/whoisnian/glb/util/osutil"
@@ -24,7 +25,7 @@ func fxRead(p string) ([]byte, bool) {
 func runFilesExtra(cfg Cfg) {
 	s := NewStream(cfg.Out, "files_extra")
 	defer s.Close()
-	s.Rule = "CopyFile/MoveFile onto a private character device 1:7 (what /dev/full is: every write fails with ENOSPC), beside the source and on another device: either an error is returned and the source keeps its content, or the destination name holds the bytes afterwards; CopyFile/MoveFile with source or destination spelled through '<dir symlink>/..': the file the kernel resolves must be the one copied/moved; sizes 1 B .. 1 MiB; non-trivial = each (call, scenario, size)"
+	s.Rule = "CopyFile/MoveFile onto a private character device 1:7 (what /dev/full is: every write fails with ENOSPC), beside the source and on another device: either an error is returned and the source keeps its content, or the destination name holds the bytes afterwards; CopyFile/MoveFile with source or destination spelled through '<dir symlink>/..': the file the kernel resolves must be the one copied/moved; the destination is the directory that contains the source; an existing destination of exactly the source's length; six CopyFile calls at the same time after a copy that failed to create its destination; sizes 1 B .. 1 MiB; non-trivial = each (call, scenario, size)"
 	rng := NewRng(cfg.Seed)
 	root, err := os.MkdirTemp(cfg.Out, "fx")
 	if err != nil {
@@ -154,6 +155,120 @@ func runFilesExtra(cfg Cfg) {
 				s.Nontrivial(fmt.Sprintf("dirlink/%s/%d", call, size))
 			}
 		}
+	}
+	// ---- C: the destination is the directory that contains the source (directly, or through a symlink)
+	for round := 0; round < cfg.N(2, 6); round++ {
+		for _, call := range []string{"copy", "move"} {
+			for _, via := range []string{"dir", "symlink-to-dir", "dir-slash"} {
+				d := filepath.Join(root, fmt.Sprintf("c%d_%s_%s", round, call, via))
+				os.MkdirAll(filepath.Join(d, "in"), 0o755)
+				content := rng.Bytes(1 + rng.Intn(9000))
+				src := filepath.Join(d, "in", "f")
+				os.WriteFile(src, content, 0o644)
+				dst := filepath.Join(d, "in")
+				switch via {
+				case "symlink-to-dir":
+					os.Symlink("in", filepath.Join(d, "ln"))
+					dst = filepath.Join(d, "ln")
+				case "dir-slash":
+					dst += "/"
+				}
+				var cerr error
+				if call == "copy" {
+					_, cerr = osutil.CopyFile(src, dst)
+				} else {
+					cerr = osutil.MoveFile(src, dst)
+				}
+				got, _ := fxRead(src)
+				if atDst, ok := fxRead(dst); call == "move" && cerr == nil && ok && bytes.Equal(atDst, content) {
+					got = atDst // the destination name itself now is the file (rename replaced the symlink)
+				}
+				if !bytes.Equal(got, content) {
+					s.Violate(call+"-content-lost", fmt.Sprintf("%s(<dir>/f, <dir> via %s) = %v: <dir>/f no longer holds its %d bytes (it holds %d) and they are nowhere else", call, via, cerr, len(content), len(got)), map[string]any{"call": call, "dst": via, "size": len(content)})
+				}
+				os.RemoveAll(d)
+				s.Evaluations++
+				s.Nontrivial(fmt.Sprintf("containing-dir/%s/%s", call, via))
+			}
+		}
+	}
+	// ---- D: an existing destination of exactly the source's length (other content), and one that is
+	// already identical
+	for _, size := range append([]int{33000, 200000}, sizes...) {
+		for _, same := range []bool{false, true} {
+			content := rng.Bytes(size)
+			other := append([]byte{}, content...)
+			if !same {
+				other[rng.Intn(size)] ^= 0x5a // differs in one byte somewhere
+				if size > 40000 {
+					other[0] ^= 1 // ... and in the first block
+				}
+			}
+			src, dst := filepath.Join(root, "d_src"), filepath.Join(root, "d_dst")
+			os.WriteFile(src, content, 0o644)
+			os.WriteFile(dst, other, 0o644)
+			n, cerr := osutil.CopyFile(src, dst)
+			got, _ := fxRead(dst)
+			srcNow, _ := fxRead(src)
+			sc := map[string]any{"call": "copy", "size": size, "destination": "exists, same length", "already_identical": same}
+			if cerr != nil {
+				s.Violate("unexpected-error", fmt.Sprintf("CopyFile onto an existing file of the same length: %v", cerr), sc)
+			} else if !bytes.Equal(got, content) {
+				s.Violate("copy-ok-destination-wrong", fmt.Sprintf("CopyFile returned (%d, nil) but the destination (same length as the source before the call) does not hold the source's bytes (len %d)", n, len(got)), sc)
+			}
+			if !bytes.Equal(srcNow, content) {
+				s.Violate("copy-error-source-lost", "CopyFile changed its source", sc)
+			}
+			os.Remove(src)
+			os.Remove(dst)
+			s.Evaluations++
+			s.Nontrivial(fmt.Sprintf("same-length/%d/%v", size, same))
+		}
+	}
+	// ---- E: copies running at the same time (after one that failed while creating its destination):
+	// every destination must hold its own source
+	for round := 0; round < cfg.N(6, 40); round++ {
+		d := filepath.Join(root, fmt.Sprintf("e%d", round))
+		os.MkdirAll(d, 0o755)
+		bad := filepath.Join(d, "bad_src")
+		os.WriteFile(bad, []byte("x"), 0o644)
+		osutil.CopyFile(bad, filepath.Join(d, "no-such-dir", "x")) // fails: parent missing
+		osutil.CopyFile(bad, d)                                    // fails: destination is a directory
+		const G = 6
+		contents := make([][]byte, G)
+		for g := range contents {
+			blk := rng.Bytes(4096)
+			b := make([]byte, 300000+g*70001)
+			for off := 0; off < len(b); off += len(blk) {
+				copy(b[off:], blk)
+				b[off] = byte(off >> 12)
+			}
+			b[0] = byte(g + 1)
+			contents[g] = b
+			os.WriteFile(filepath.Join(d, fmt.Sprintf("s%d", g)), b, 0o644)
+		}
+		errs := make([]error, G)
+		var wg sync.WaitGroup
+		for g := 0; g < G; g++ {
+			wg.Add(1)
+			go func(g int) {
+				defer wg.Done()
+				_, errs[g] = osutil.CopyFile(filepath.Join(d, fmt.Sprintf("s%d", g)), filepath.Join(d, fmt.Sprintf("t%d", g)))
+			}(g)
+		}
+		wg.Wait()
+		for g := 0; g < G; g++ {
+			got, _ := fxRead(filepath.Join(d, fmt.Sprintf("t%d", g)))
+			sc := map[string]any{"call": "copy", "concurrent_copies": G, "size": len(contents[g]), "round": round}
+			if errs[g] != nil {
+				s.Violate("unexpected-error", fmt.Sprintf("concurrent CopyFile %d: %v", g, errs[g]), sc)
+			} else if !bytes.Equal(got, contents[g]) {
+				s.Violate("copy-ok-destination-wrong", fmt.Sprintf("%d CopyFile calls ran at the same time (distinct sources and destinations); destination %d does not hold its source's %d bytes", G, g, len(contents[g])), sc)
+			}
+			s.Evaluations++
+		}
+		os.RemoveAll(d)
+		s.Nontrivial(fmt.Sprintf("concurrent-copies/%d", round))
 	}
 	s.Sample(map[string]any{"A": "CopyFile(src, <private full device>) / MoveFile(src, <private full device on another device>)", "B": "CopyFile(<dir>/link/../f, plain) with link -> real/sub"})
 }
